@@ -802,7 +802,9 @@ class ChainOracles(WalkOracles):
             self.ring = len(self.line) >= 2 and self.choose("ring", (False, True))
             # ... or — unstranded only — the end's one extension leads to a node that is a single palindromic k-mer ("pal"): every walk must stop in
             # front of it and report the extension towards it
-            kinds = (0, 2) if self.stranded else (0, 2, "hp", "pal")
+            # ... or ("refused") to an ordinary available neighbour that the caller's join predicate refuses: the walk stops in front of it, reports
+            # the extension towards it — and must leave it available (it will seed a node of its own)
+            kinds = (0, 2, "refused") if self.stranded else (0, 2, "hp", "pal", "refused")
             self.ends = (0, 0) if self.ring else (self.choose("lend", kinds), self.choose("rend", kinds))
         return self.line
 
@@ -821,12 +823,14 @@ class ChainOracles(WalkOracles):
             return line[i]
         if self.ends[0 if line_side == LEFT else 1] == "hp":
             return x
-        if self.ends[0 if line_side == LEFT else 1] == "pal" and not str(x).startswith("P"):
+        if self.ends[0 if line_side == LEFT else 1] == "pal" and not str(x).startswith(("P", "Q")):
             return "PL" if line_side == LEFT else "PR"
+        if self.ends[0 if line_side == LEFT else 1] == "refused" and not str(x).startswith(("P", "Q")):
+            return "QL" if line_side == LEFT else "QR"
         return None
 
     def known(self, x):
-        return x in self.setup() or x in ("PL", "PR")
+        return x in self.setup() or x in ("PL", "PR", "QL", "QR")
 
     def is_hairpin(self, x, stored_side):
         line = self.setup()
@@ -839,8 +843,8 @@ class ChainOracles(WalkOracles):
     def exts_byte(self, x):
         line = self.setup()
         m = 0
-        if str(x).startswith("P"):
-            return 0x22         # the palindromic k-mer beyond an end: one extension on either side
+        if str(x).startswith(("P", "Q")):
+            return 0x22         # the node beyond an end (palindromic k-mer / refused neighbour): one extension on either side
         for line_side in (LEFT, RIGHT):
             sd = self.stored_side(x, line_side)
             if self.neighbour(x, sd) is not None:
@@ -870,7 +874,7 @@ class ChainOracles(WalkOracles):
                 elif 0 <= j < n:
                     allowed.add(((line[i],), (line[j],)))
             allowed.add(((line[i],), (line[i],)))
-        for e_, pn in ((line[0], "PL"), (line[-1], "PR")):
+        for e_, pn in ((line[0], "PL"), (line[-1], "PR"), (line[0], "QL"), (line[-1], "QR")):
             allowed.add(((e_,), (pn,)))
         if not self.ring:
             joins = set()
@@ -970,7 +974,7 @@ class ChainOracles(WalkOracles):
             if self.is_hairpin(x, d):
                 # the element's reverse complement follows it: the link arrives at the same side it left from
                 return some(Tup([Int(64, False, bits=[TOP] * 64, tags=frozenset({"id:" + x})), dir_v(d), mkbool(True)]))
-            if str(y).startswith("P"):
+            if str(y).startswith(("P", "Q")):
                 return some(Tup([Int(64, False, bits=[TOP] * 64, tags=frozenset({"id:" + y})), dir_v(flip(d)), mkbool(False)]))
             line_side = d if self.fwd[x] else flip(d)          # the side of the line the walk moves to
             s_in = self.stored_side(y, flip(line_side))
@@ -983,7 +987,8 @@ class ChainOracles(WalkOracles):
         if name == "join_test" and "CompressionSpec" in tr:
             a, b = recv(it, args[1]), recv(it, args[2])
             self.joins.append((a.info.get("fold") if isinstance(a, Opaque) else None, b.info.get("fold") if isinstance(b, Opaque) else None))
-            return mkbool(True)
+            refused = any(isinstance(x_, Opaque) and any(str(f_).startswith("Q") for f_ in (x_.info.get("fold") or ())) for x_ in (a, b))
+            return mkbool(not refused)
         if name == "sequence_of_path":
             itv = args[1]
             vals = None
@@ -1051,7 +1056,7 @@ def graph_chain_table(F, rep, rule):
                     h.seq_path, "ring, cut at the seed," if h.ring else "line", " or ".join(str([(x, LEFT if h.fwd[x] else RIGHT) for x in pth]) for pth, _ in outcomes)), row))
                 continue
             npth, want_joins = match[0]
-            if not (want_joins <= set(h.joins) <= (want_joins | allowed)) or (not h.ring and "hp" not in h.ends and "pal" not in h.ends and set(h.joins) != want_joins):
+            if not (want_joins <= set(h.joins) <= (want_joins | allowed)) or (not h.ring and not ({"hp", "pal", "refused"} & set(h.ends)) and set(h.joins) != want_joins):
                 bad = [j for j in h.joins if j not in (want_joins | allowed)] or [j for j in want_joins if j not in h.joins] or [j for j in h.joins if j not in want_joins]
                 problems.append(("the join predicate is asked about the payload pairs %s; required: once per link of the line, (payload of the node the walk stands on, "
                                  "payload of the node it wants to enter) = %s — first difference %s" % (h.joins, sorted(want_joins), bad[0]), row))
@@ -1132,8 +1137,8 @@ class KmerChainOracles(ChainOracles):
                 y = self.neighbour(x, d)
                 if y is not None and self.is_hairpin(x, d):
                     return Opaque("K", {"kmer"}, {"k": x, "rc": True})      # the k-mer's own reverse complement follows it
-                if y is not None and str(y).startswith("P"):
-                    return Opaque("K", {"kmer"}, {"k": y, "rc": False})     # a palindrome is its own reverse complement
+                if y is not None and str(y).startswith(("P", "Q")):
+                    return Opaque("K", {"kmer"}, {"k": y, "rc": False})     # (a palindrome is its own reverse complement; the refused neighbour is stored as met)
                 if y is not None:
                     # the neighbour as reached from x: its stored key, reverse-complemented when the two are stored in opposite orientations
                     return Opaque("K", {"kmer"}, {"k": y, "rc": self.fwd[x] != self.fwd[y]})
@@ -1151,7 +1156,8 @@ class KmerChainOracles(ChainOracles):
         if name == "join_test" and "CompressionSpec" in tr:
             a, b = recv(it, args[1]), recv(it, args[2])
             self.joins.append((a.info.get("fold") if isinstance(a, Opaque) else None, b.info.get("fold") if isinstance(b, Opaque) else None))
-            return mkbool(True)
+            refused = any(isinstance(x_, Opaque) and any(str(f_).startswith("Q") for f_ in (x_.info.get("fold") or ())) for x_ in (a, b))
+            return mkbool(not refused)
         return self.common(it, fn, args, dest_ty, term, caller)
 
 
@@ -1220,7 +1226,7 @@ def kmer_chain_table(F, rep, rule):
                     got_seq, "ring, cut at the seed," if h.ring else "line", " or ".join(str(spelled(pth)) for pth, _ in outcomes)), row))
                 continue
             npth, want_joins = match[0]
-            if not (want_joins <= set(h.joins) <= (want_joins | allowed)) or (not h.ring and "hp" not in h.ends and "pal" not in h.ends and set(h.joins) != want_joins):
+            if not (want_joins <= set(h.joins) <= (want_joins | allowed)) or (not h.ring and not ({"hp", "pal", "refused"} & set(h.ends)) and set(h.joins) != want_joins):
                 bad = [j for j in h.joins if j not in (want_joins | allowed)] or [j for j in want_joins if j not in h.joins] or [j for j in h.joins if j not in want_joins]
                 problems.append(("the join predicate is asked about the payload pairs %s; required: once per link of the line, (payload of the k-mer the walk stands on, "
                                  "payload of the k-mer it wants to enter) = %s — first difference %s" % (h.joins, sorted(want_joins), bad[0]), row))
